@@ -243,7 +243,7 @@ func genC25Batch(r *Rand) uint64 {
 func init() {
 	Register(&Subsystem{
 		Name: "mint",
-		Rule: "sweep of mintBatchSize over batches 0..45000 (stride 5 in quick, every batch in thorough) plus year " +
+		Rule: "sweep of mintBatchSize over batches 0..45000 (stride 10 in quick, every batch in thorough) plus year " +
 			"boundaries up to year 300 and the panic horizons; mintMultiBatchesSize / poolSizeUniversal / " +
 			"checkUniversalMintPossibility at random positions; distributeKernelMintByWorks and " +
 			"buildUniversalMintTransaction on 7..50 nodes with random (lead, sign) works including zeros, ties, " +
@@ -256,7 +256,7 @@ func init() {
 		},
 		Gen: func(r *Rand, i int, tier string) []string {
 			var lines []string
-			stride := 5
+			stride := 10
 			if tier == "thorough" {
 				stride = 1
 			}
